@@ -132,6 +132,23 @@ func axisByCode(m *MappingDef, sub string, code uint16) *AxisDef {
 	return nil
 }
 
+// axisOfStep: the axis a step moves, as the current mapping configures it and with the range of the event node the step
+// comes from (the second node of a name may report its own).
+func axisOfStep(d *Desc, m *MappingDef, s Step) *AxisDef {
+	a := axisByCode(m, s.Sub, s.Code)
+	if a == nil || s.Node == 0 {
+		return a
+	}
+	for _, tr := range d.TwinRanges {
+		if tr.Sub == s.Sub && tr.Code == s.Code {
+			b := *a
+			b.Min, b.Max = tr.Min, tr.Max
+			return &b
+		}
+	}
+	return a
+}
+
 func axisLabel(a *AxisDef, dz float64) string {
 	fl, ce := a.Flip != nil && *a.Flip, a.Center != nil && *a.Center
 	return fmt.Sprintf("%s axis [%d,%d] deadzone=%v flip=%v centre=%v", a.Type, a.Min, a.Max, dz, fl, ce)
